@@ -1938,6 +1938,20 @@ def _matrix_get(vm, cal, args):
     return SOME(Ref(ref.cell, ref.path + (2, ('idx', r * cols + c))))
 
 
+@reg(('Matrix', 'Index', 'index'), ('Matrix', 'IndexMut', 'index_mut'))
+def _matrix_index(vm, cal, args):
+    r = _matrix_get(vm, cal, args)
+    if r.variant == 0:
+        raise Panic("Matrix index out of bounds")
+    return r.fields[0]
+
+
+@reg(('Matrix', None, 'rows'), ('Matrix', None, 'columns'))
+def _matrix_dims(vm, cal, args):
+    m = vm.deref(as_ref(args[0]))
+    return m.fields[0] if cal.method == 'rows' else m.fields[1]
+
+
 @reg((None, None, 'kuhn_munkres'))
 def _kuhn_munkres(vm, cal, args):
     """contract: returns an assignment row -> distinct column of MAXIMUM total weight (any optimal one).
